@@ -486,6 +486,21 @@ func (x *run) act(a string) bool {
 		x.lst[c] = "insel"
 		label := "l" + strconv.Itoa(c)
 		x.ctl.Release(label, "muc.leave.select")
+		if x.lready[c] == "" && !x.tok[c] {
+			// nothing can end this Leave yet: it must still be waiting after the serve loop has
+			// gone round once more
+			x.sync()
+			time.Sleep(time.Millisecond)
+			for i, e := range x.ctl.Drain(&x.skipped) {
+				_ = i
+				if e.Who == label && strings.HasPrefix(e.What, "ret:") {
+					x.r.Fail("leave-returns", "leave-returned-without-unavailable-presence", x.lines(), fmt.Sprintf("Leave of channel %d returned (%v) although neither the occupant's unavailable presence nor an error reply nor the end of its context had happened", c, e.Extra))
+					x.problem("Leave %d returned early", c)
+				} else {
+					x.skipped = append(x.skipped, e)
+				}
+			}
+		}
 		if x.lready[c] != "" || x.tok[c] {
 			if e, ok := x.wait(isEv(label, "ret:"), label+" return"); ok {
 				x.leaveReturned(c, e)
@@ -517,6 +532,25 @@ func (x *run) act(a string) bool {
 			x.sync()
 		} else if a[0] == 'E' {
 			x.blocked, x.blockedBy = true, "l"+strconv.Itoa(c)
+		}
+	case strings.HasPrefix(a, "Zj"), strings.HasPrefix(a, "Zl"):
+		// a LATE error reply to the join / leave presence of a call that has already returned:
+		// nobody waits for it, the serve loop must go on
+		c := num(2)
+		id := x.jid
+		st := x.jst
+		if a[1] == 'l' {
+			id, st = x.lid, x.lst
+		}
+		if c >= len(x.addrs) || st[c] != "idle" || id[c] == "" || x.blocked {
+			return false
+		}
+		x.trace = append(x.trace, a) // for the model: an unrelated stanza
+		x.feed(fmt.Sprintf(`<presence xmlns="jabber:client" from="%s" id="%s" type="error"><error type="cancel"><forbidden xmlns="urn:ietf:params:xml:ns:xmpp-stanzas"/></error></presence>`, occ(x.cur[c]), id[c]))
+		before := len(x.problems)
+		x.sync()
+		if len(x.problems) > before {
+			x.r.Fail("serve-continues", "serve-stalled-after-late-reply:muc-"+map[byte]string{'j': "join", 'l': "leave"}[a[1]], append(x.lines(), "#"+a+": late error reply with the id of the finished call"), "a late error presence carrying the id of a Join / Leave that had already returned left the serve loop blocked")
 		}
 	case a[0] == 'I':
 		// I or I<children>: a message whose children are, in this order,
@@ -683,6 +717,14 @@ var corpus = []struct {
 	{"0", "J0,s0,A0,J0@10,s0,Ej0,A0,U10,U0"},             // refused (conflict): still in the room under the old nickname
 	{"0", "J0,s0,A0,J0@10,s0,Xj0,A10,U0"},                // cancelled
 	{"0", "J0@10,s0,A0,A10,L0,l0,U10"},                   // first join with the Nick option
+	// XEP-0045 confirmation of a nickname change: unavailable presence of the OLD nickname (status
+	// 303) while the join is pending, then the self-presence of the new one; a Leave afterwards
+	// must wait for the unavailable presence of the NEW nickname
+	{"0", "J0,s0,A0,J0@10,s0,U0,A10,L0,l0,N,U10"},
+	{"0", "J0,s0,A0,J0@10,U0,s0,A10,L0,l0,A10,U0,U10"},
+	// late error replies with the id of a join / leave that has already returned
+	{"0", "J0,s0,A0,Zj0,L0,l0,U0,Zl0,Zj0,N,J0,s0,A0,Zl0"},
+	{"0,1", "J0,s0,A0,J1,s1,Ej1,Zj1,L0,l0,El0,Zl0,Zj0"},
 	{"0,10", "J0,s0,A0,J1,s1,A10,J0@10,J1@0,U10,U0"},     // the other nickname is taken by our own second channel
 }
 
@@ -702,7 +744,9 @@ func randSched(rnd *common.Rand, n, length int) []string {
 	for len(out) < length {
 		c := strconv.Itoa(rnd.Intn(n))
 		a := strconv.Itoa(rnd.Intn(n+1) + 10*(rnd.Intn(3)/2))
-		switch rnd.Intn(20) {
+		switch rnd.Intn(21) {
+		case 20:
+			out = append(out, "Xl"+c)
 		case 0, 1, 2:
 			j := "J" + c
 			if rnd.Chance(1, 4) {
@@ -733,7 +777,7 @@ func randSched(rnd *common.Rand, n, length int) []string {
 		case 16:
 			out = append(out, "El"+c)
 		case 17:
-			out = append(out, "Xl"+c)
+			out = append(out, "Z"+string("jl"[rnd.Intn(2)])+c)
 		case 18:
 			// a mediated invitation among other children, in a random order
 			kids := []byte("m")
